@@ -1,20 +1,23 @@
 ------------------------------ MODULE MC_C10 ------------------------------
 EXTENDS Ranges
+CONSTANT Wide     \* TRUE (thorough tier): more lines before the tag, longer comments after it
+Pre == IF Wide THEN 0..4 ELSE 0..1
+More == IF Wide THEN 1..4 ELSE 1..2
 \* form: concrete comment form (spelled by the concretiser); the numbers are what the arithmetic needs
 L(form, pre, tagl, more, cend, inline) == [form |-> form, pre |-> pre, tagl |-> tagl, more |-> more, cend |-> cend, inline |-> inline, cont |-> 0]
 \* Markdown containers: every line of the file carries a prefix of `cont` columns ("- " / two spaces in a list item, "> " in a
 \* block quote); "div*" forms put the comment on the second line of an HTML block that starts with a <div> line
 LC(form, pre, tagl, more) == [form |-> form, pre |-> pre, tagl |-> tagl, more |-> more, cend |-> 0, inline |-> FALSE, cont |-> 2]
 MCLayouts ==
-  {L("hash", p, 0, 0, 0, FALSE) : p \in 0..2}
-  \cup {L("trail", p, 0, 0, 0, FALSE) : p \in 0..1}
-  \cup {L("cblock", p, 0, 0, 0, FALSE) : p \in 0..1}
-  \cup {L("cinline", p, 0, 0, 120, TRUE) : p \in 0..1}
-  \cup {L("mltop", p, 0, m, 0, FALSE) : p \in 0..1, m \in 1..2}
+  {L("hash", p, 0, 0, 0, FALSE) : p \in 0..2 \cup Pre}
+  \cup {L("trail", p, 0, 0, 0, FALSE) : p \in Pre}
+  \cup {L("cblock", p, 0, 0, 0, FALSE) : p \in Pre}
+  \cup {L("cinline", p, 0, 0, 120, TRUE) : p \in Pre}
+  \cup {L("mltop", p, 0, m, 0, FALSE) : p \in Pre, m \in More}
   \cup {L("mltopinline", 0, 0, 1, 12, TRUE)}
-  \cup {L("mlmid", p, 1, 1, 0, FALSE) : p \in 0..1}
+  \cup {L("mlmid", p, 1, 1, 0, FALSE) : p \in Pre}
   \cup {L("mllast", 0, 2, 0, 0, FALSE)}
-  \cup {L("xml", p, 0, 0, 0, FALSE) : p \in 0..1}
+  \cup {L("xml", p, 0, 0, 0, FALSE) : p \in Pre}
   \cup {L("mxml", 0, 1, 1, 0, FALSE)}
   \cup {L("mdparen", 1, 0, 0, 0, FALSE)}
   \cup {LC("xmlli", p, 0, 0) : p \in 0..2} \cup {LC("xmlbq", p, 0, 0) : p \in 0..2}
